@@ -487,7 +487,7 @@ func init() {
 		Cases: func(master uint64, tier string) []Case {
 			n := 1200
 			if tier == "thorough" {
-				n = 40000
+				n = 60000
 			}
 			return seqCases(master, n, nil)
 		},
